@@ -19,6 +19,21 @@ type Graph struct {
 	C      *cfg.CFG
 	Blocks []*cfg.Block // live blocks
 	Entry  *cfg.Block
+	preds  map[*cfg.Block][]*cfg.Block
+}
+
+// Preds returns the predecessor map over live blocks.
+func (g *Graph) Preds() map[*cfg.Block][]*cfg.Block {
+	if g.preds != nil {
+		return g.preds
+	}
+	g.preds = map[*cfg.Block][]*cfg.Block{}
+	for _, b := range g.Blocks {
+		for _, s := range b.Succs {
+			g.preds[s] = append(g.preds[s], b)
+		}
+	}
+	return g.preds
 }
 
 // noReturn reports whether call never returns normally.
@@ -535,4 +550,329 @@ func InBody(loop ast.Stmt, n ast.Node) bool {
 		return Encloses(l.Body, n)
 	}
 	return false
+}
+
+// Edge is a CFG edge B -> B.Succs[K].
+type Edge struct {
+	B *cfg.Block
+	K int
+}
+
+// EdgesImplying lists the branch edges that imply the guard.
+func (g *Graph) EdgesImplying(guard Guard) []Edge {
+	var out []Edge
+	for _, b := range g.Blocks {
+		for k := range b.Succs {
+			if g.EdgeImplies(b, k, guard) {
+				out = append(out, Edge{b, k})
+			}
+		}
+	}
+	return out
+}
+
+// Region returns the syntactic region entered by the edge: the body of the
+// if/else/case/loop the target block belongs to.
+func (g *Graph) Region(e Edge) ast.Node {
+	t := e.B.Succs[e.K]
+	switch t.Kind {
+	case cfg.KindIfThen:
+		return t.Stmt.(*ast.IfStmt).Body
+	case cfg.KindIfElse:
+		return t.Stmt.(*ast.IfStmt).Else
+	case cfg.KindSwitchCaseBody:
+		return t.Stmt
+	case cfg.KindForBody:
+		return t.Stmt.(*ast.ForStmt).Body
+	case cfg.KindRangeBody:
+		return t.Stmt.(*ast.RangeStmt).Body
+	}
+	return nil
+}
+
+// BranchAlways reports whether every path that enters the branch through the
+// edge passes a node satisfying via before it leaves the branch's region (or
+// the function). The witness describes a path that does not.
+func (g *Graph) BranchAlways(e Edge, via func(ast.Node) bool) Witness {
+	t := e.B.Succs[e.K]
+	region := g.Region(e)
+	w := &Walk{G: g, From: Site{G: g, B: t, I: 0}, Inclusive: true, Stop: via, HitExit: true,
+		Hit: func(n ast.Node) bool { return region == nil || !Encloses(region, n) }}
+	// leaving the region through an empty join block is also "leaving": model by
+	// treating blocks whose statement lies outside the region as hits
+	return w.runRegion(region)
+}
+
+func (w *Walk) runRegion(region ast.Node) Witness {
+	g := w.G
+	type item struct {
+		b *cfg.Block
+		i int
+	}
+	work := []item{{w.From.B, w.From.I}}
+	seen := map[*cfg.Block]bool{}
+	for len(work) > 0 {
+		it := work[len(work)-1]
+		work = work[:len(work)-1]
+		b := it.b
+		stopped := false
+		for i := it.i; i < len(b.Nodes); i++ {
+			n := b.Nodes[i]
+			if w.Stop != nil && w.Stop(n) {
+				stopped = true
+				break
+			}
+			if w.Hit != nil && w.Hit(n) {
+				return Witness{true, n, b, NotExit}
+			}
+		}
+		if stopped {
+			continue
+		}
+		if len(b.Succs) == 0 {
+			k := g.exitKind(b)
+			if k == ExitReturn || k == ExitFall {
+				var n ast.Node
+				if len(b.Nodes) > 0 {
+					n = b.Nodes[len(b.Nodes)-1]
+				}
+				return Witness{true, n, b, k}
+			}
+			continue
+		}
+		for _, s := range b.Succs {
+			if seen[s] {
+				continue
+			}
+			seen[s] = true
+			// a successor block that belongs to a statement outside the region means
+			// the branch was left
+			if region != nil && s.Stmt != nil && !Encloses(region, s.Stmt) && len(s.Nodes) == 0 {
+				return Witness{true, s.Stmt, s, NotExit}
+			}
+			work = append(work, item{s, 0})
+		}
+	}
+	return Witness{}
+}
+
+// EdgeImpliesAny reports whether some branch edge of the function implies the guard.
+func (g *Graph) EdgeImpliesAny(guard Guard) bool { return len(g.EdgesImplying(guard)) > 0 }
+
+// StateWalk is a path-sensitive search over (block, abstract state) pairs for a
+// small finite state (ordinary dataflow over a finite lattice with branch
+// refinement; no arithmetic, no solver). Transfer updates the state at a node,
+// Refine updates it along a branch edge and may declare the edge infeasible for
+// that state. Stop ends a path (obligation met), Hit reports a violation.
+type StateWalk struct {
+	G        *Graph
+	Init     int
+	From     Site // zero value: function entry
+	Transfer func(n ast.Node, s int) int
+	Refine   func(b *cfg.Block, k int, s int) (int, bool)
+	Stop     func(n ast.Node, s int) bool
+	Hit      func(n ast.Node, s int) bool
+	HitExit  func(kind ExitKind, last ast.Node, s int) bool
+}
+
+// Run executes the search and returns a witness of the first hit.
+func (w *StateWalk) Run() Witness {
+	g := w.G
+	type key struct {
+		b *cfg.Block
+		s int
+	}
+	type item struct {
+		b *cfg.Block
+		i int
+		s int
+	}
+	seen := map[key]bool{}
+	var work []item
+	if w.From.B == nil {
+		if g.Entry == nil {
+			return Witness{}
+		}
+		work = append(work, item{g.Entry, 0, w.Init})
+		seen[key{g.Entry, w.Init}] = true
+	} else {
+		work = append(work, item{w.From.B, w.From.I, w.Init})
+	}
+	for len(work) > 0 {
+		it := work[len(work)-1]
+		work = work[:len(work)-1]
+		b, s := it.b, it.s
+		stopped := false
+		for i := it.i; i < len(b.Nodes); i++ {
+			n := b.Nodes[i]
+			if w.Stop != nil && w.Stop(n, s) {
+				stopped = true
+				break
+			}
+			if w.Hit != nil && w.Hit(n, s) {
+				return Witness{true, n, b, NotExit}
+			}
+			if w.Transfer != nil {
+				s = w.Transfer(n, s)
+			}
+		}
+		if stopped {
+			continue
+		}
+		if len(b.Succs) == 0 {
+			k := g.exitKind(b)
+			var last ast.Node
+			if len(b.Nodes) > 0 {
+				last = b.Nodes[len(b.Nodes)-1]
+			}
+			if w.HitExit != nil && (k == ExitReturn || k == ExitFall) && w.HitExit(k, last, s) {
+				return Witness{true, last, b, k}
+			}
+			continue
+		}
+		for k, nb := range b.Succs {
+			ns, ok := s, true
+			if w.Refine != nil {
+				ns, ok = w.Refine(b, k, s)
+			}
+			if !ok {
+				continue
+			}
+			if !seen[key{nb, ns}] {
+				seen[key{nb, ns}] = true
+				work = append(work, item{nb, 0, ns})
+			}
+		}
+	}
+	return Witness{}
+}
+
+// Emptiness states of a slice variable.
+const (
+	EmpUnknown = iota
+	EmpEmpty
+	EmpNonEmpty
+)
+
+// EmptinessTracker returns Transfer/Refine functions tracking whether the slice
+// variable obj is empty: `v = T{}` / `v := T{}` / `var v T` -> empty,
+// `v = append(v, …)` -> non-empty, any other assignment -> unknown; branches on
+// len(v) == 0, len(v) != 0, len(v) > 0, len(v) == N refine and prune.
+func (g *Graph) EmptinessTracker(isVar func(ast.Expr) bool) (func(ast.Node, int) int, func(*cfg.Block, int, int) (int, bool)) {
+	f := g.Fn
+	transfer := func(n ast.Node, s int) int {
+		switch st := n.(type) {
+		case *ast.AssignStmt:
+			for i, l := range st.Lhs {
+				if !isVar(l) {
+					continue
+				}
+				if len(st.Rhs) != len(st.Lhs) {
+					return EmpUnknown
+				}
+				r := ast.Unparen(st.Rhs[i])
+				if cl, ok := r.(*ast.CompositeLit); ok && len(cl.Elts) == 0 {
+					return EmpEmpty
+				}
+				if call, ok := r.(*ast.CallExpr); ok {
+					if id, ok := call.Fun.(*ast.Ident); ok && id.Name == "append" && len(call.Args) >= 2 && isVar(call.Args[0]) {
+						return EmpNonEmpty
+					}
+				}
+				if f.IsNilLit(r) {
+					return EmpEmpty
+				}
+				return EmpUnknown
+			}
+		case *ast.ValueSpec:
+			for i, nm := range st.Names {
+				if isVar(nm) {
+					if len(st.Values) == 0 {
+						return EmpEmpty
+					}
+					if i < len(st.Values) {
+						if cl, ok := ast.Unparen(st.Values[i]).(*ast.CompositeLit); ok && len(cl.Elts) == 0 {
+							return EmpEmpty
+						}
+					}
+					return EmpUnknown
+				}
+			}
+		}
+		return s
+	}
+	isLen := f.IsLenOf(isVar)
+	refine := func(b *cfg.Block, k int, s int) (int, bool) {
+		for _, ft := range g.EdgeFacts(b, k) {
+			be, ok := ast.Unparen(ft.E).(*ast.BinaryExpr)
+			if !ok {
+				continue
+			}
+			var other ast.Expr
+			op := be.Op
+			switch {
+			case isLen(be.X):
+				other = be.Y
+			case isLen(be.Y):
+				other = be.X
+				if m, ok := mirrorOp[op]; ok {
+					op = m
+				}
+			default:
+				continue
+			}
+			c := f.ConstVal(other)
+			if c == nil {
+				continue
+			}
+			n, exact := constantInt(c)
+			if !exact {
+				continue
+			}
+			// does the comparison (with truth value ft.Val) imply empty / non-empty?
+			holdsFor := func(l int64) bool {
+				var r bool
+				switch op {
+				case token.EQL:
+					r = l == n
+				case token.NEQ:
+					r = l != n
+				case token.LSS:
+					r = l < n
+				case token.LEQ:
+					r = l <= n
+				case token.GTR:
+					r = l > n
+				case token.GEQ:
+					r = l >= n
+				default:
+					return true
+				}
+				return r == ft.Val
+			}
+			emptyOK := holdsFor(0)
+			nonEmptyOK := false
+			for _, l := range []int64{1, 2, 3, n - 1, n, n + 1} {
+				if l >= 1 && holdsFor(l) {
+					nonEmptyOK = true
+				}
+			}
+			switch {
+			case emptyOK && !nonEmptyOK:
+				if s == EmpNonEmpty {
+					return s, false
+				}
+				s = EmpEmpty
+			case !emptyOK && nonEmptyOK:
+				if s == EmpEmpty {
+					return s, false
+				}
+				s = EmpNonEmpty
+			case !emptyOK && !nonEmptyOK:
+				return s, false
+			}
+		}
+		return s, true
+	}
+	return transfer, refine
 }
